@@ -114,6 +114,7 @@ type kase struct {
 	Revoke      string `json:"idp_revoke_outcome"`
 	Reuse       string `json:"reuse_revalidation"` // validate | refresh
 	AuthTime    string `json:"auth_session_at_sign_out"`
+	Pre         string `json:"proxy_session_before_sign_out"` // none | validate | refresh-validate | refresh-refresh
 	Replay      bool   `json:"replay_post_afterwards"`
 
 	ReturnAddr  string   `json:"return_address,omitempty"`
@@ -128,7 +129,7 @@ type kase struct {
 }
 
 func (k *kase) descriptor() string {
-	return fmt.Sprintf("%v|%s|%s|%s|%s|%s|%s|%s|%s|%s", k.Secure, k.Host, k.ProxyCookie, k.Sig, k.Mode, k.GetCookie, k.PostCookie, k.Revoke, k.Reuse, k.AuthTime)
+	return fmt.Sprintf("%v|%s|%s|%s|%s|%s|%s|%s|%s|%s", k.Secure, k.Host, k.ProxyCookie, k.Sig, k.Mode, k.GetCookie, k.PostCookie, k.Revoke, k.Reuse, k.AuthTime+"|"+k.Pre)
 }
 
 func genCase(i int, r *rand.Rand) *kase {
@@ -187,7 +188,81 @@ func genCase(i int, r *rand.Rand) *kase {
 	default:
 		k.AuthTime = "no-refresh-token-token-expired"
 	}
+	// what the proxy session went through before the sign-out (all through the real authenticator)
+	switch x := r.Intn(20); {
+	case x < 6:
+		k.Pre = "none"
+	case x < 10:
+		k.Pre = "validate"
+	case x < 17:
+		k.Pre = "refresh-validate"
+	default:
+		k.Pre = "refresh-refresh"
+	}
+	if k.noRT() && strings.HasPrefix(k.Pre, "refresh") {
+		k.Pre = "validate" // no refresh token: the proxy cannot refresh
+	}
+	if strings.HasPrefix(k.Pre, "refresh") && r.Intn(2) == 0 {
+		k.Reuse = "refresh"
+	}
 	return k
+}
+
+// prePhase lets virtual time pass for the PROXY session before the sign-out: revalidation (11 min:
+// /validate at the real authenticator, which asks the IdP) and/or refresh (61 min: /refresh at the real
+// authenticator; the IdP issues a new access token of the same grant to the proxy while the authenticator's
+// own cookie keeps the first one), each refresh followed by a revalidation of the new token.
+func (h *hist) prePhase() error {
+	k, b, id, as := h.k, h.b, h.id, h.w.as
+	ps := b.ps
+	id.GrantTokens = []string{id.AT}
+	id.ProxyAT = id.AT
+	var steps []string
+	switch k.Pre {
+	case "validate":
+		steps = []string{"v"}
+	case "refresh-validate":
+		steps = []string{"r", "v"}
+	case "refresh-refresh":
+		steps = []string{"r", "v", "r", "v"}
+	}
+	cookie := id.ProxyCookie
+	for n, st := range steps {
+		delta, path := 11*time.Minute, "/pre-validate"
+		want := id.ProxyAT
+		if st == "r" {
+			delta, path = 61*time.Minute, "/pre-refresh"
+			want = fmt.Sprintf("at-%s-p%d", id.Tag, n)
+			as.IdP.Set("refresh", id.RT, sut.TokenOK(want, "", int64(sut.TokenTTL.Seconds())))
+			as.IdP.Set("userinfo", want, sut.UserinfoOK(id.Email, true, id.Groups))
+			as.IdP.Set("introspect", want, sut.IntrospectOK(true))
+		}
+		asked := len(as.IdP.PeekCalls("introspect", want))
+		rs := b.proxyReq("GET", path, []string{ps.CookieName + "=" + ps.Shift(cookie, delta)}, false)
+		if rs.Err != nil || rs.Status != 200 || len(ps.Hits(rs.ID)) != 1 {
+			return fmt.Errorf("pre-sign-out %s of the proxy session: status %d %v", path, rs.Status, rs.Err)
+		}
+		v, set, cleared := rs.Cookie(ps.CookieName)
+		if !set || cleared {
+			return fmt.Errorf("pre-sign-out %s: no re-issued proxy cookie", path)
+		}
+		if s := ps.Open(v); s == nil || s.AccessToken != want {
+			return fmt.Errorf("pre-sign-out %s: proxy session does not hold the expected access token", path)
+		}
+		cookie = v
+		if st == "r" {
+			id.GrantTokens = append(id.GrantTokens, want)
+			id.ProxyAT = want
+			h.rep.Count("pre_sign_out_proxy_refreshes", 1)
+		} else {
+			h.rep.Count("pre_sign_out_proxy_revalidations", 1)
+			if len(as.IdP.PeekCalls("introspect", want)) > asked {
+				h.rep.Count("pre_sign_out_revalidation_asked_idp", 1)
+			}
+		}
+	}
+	id.ProxyCookie = cookie
+	return nil
 }
 
 // Virtual time of the authenticator session at sign-out (the cookie is opened with the known key, its
@@ -493,13 +568,14 @@ func TestProp(t *testing.T) {
 	}
 
 	floors := map[string]int{
-		"histories_complete":                     env.Pick(150, 4000),
-		"old_proxy_cookie_refused_after_lapse":   env.Pick(20, 600),
-		"stay_signed_in_after_failed_revoke":     env.Pick(15, 500),
-		"invalid_return_address_refused":         env.Pick(40, 1200),
-		"proxy_sign_out_url_accepted_by_auth":    env.Pick(150, 4000),
-		"post_success_cleared_and_returned":      env.Pick(30, 800),
-		"old_auth_cookie_refused_after_sign_out": env.Pick(20, 600),
+		"histories_complete":                                               env.Pick(150, 4000),
+		"old_proxy_cookie_refused_after_lapse":                             env.Pick(20, 600),
+		"stay_signed_in_after_failed_revoke":                               env.Pick(15, 500),
+		"invalid_return_address_refused":                                   env.Pick(40, 1200),
+		"proxy_sign_out_url_accepted_by_auth":                              env.Pick(150, 4000),
+		"post_success_cleared_and_returned":                                env.Pick(30, 800),
+		"old_auth_cookie_refused_after_sign_out":                           env.Pick(20, 600),
+		"old_proxy_cookie_refused_other-token-of-the-grant_idp_asked_true": env.Pick(5, 150),
 	}
 	for _, o := range revokeOutcomes {
 		floors["revoke_outcome_observed_"+o] = env.Pick(5, 150)
@@ -539,6 +615,12 @@ func runHistory(w *world, rep *vh.Report, env vh.Env, i int) {
 	}
 	rep.Count("logins_completed", 1)
 	h.ageAuthSession()
+	if err := h.prePhase(); err != nil {
+		preFail(rep)
+		rep.Extra("last_precondition_failure", err.Error())
+		return
+	}
+	rep.Count("proxy_session_before_sign_out_"+k.Pre, 1)
 	rep.Count("auth_session_at_sign_out_"+k.AuthTime, 1)
 	if !h.signOut() {
 		return
@@ -728,6 +810,12 @@ func (h *hist) signOut() bool {
 		revokedAtIdP = h.judgePost(post, nCalls, nDone, cs, good, refPage)
 	}
 	if revokedAtIdP {
+		// the IdP revokes the whole grant: every access token issued under it is dead, not just the one
+		// in the authenticator's cookie
+		for _, tok := range id.GrantTokens {
+			as.IdP.Set("introspect", tok, sut.IntrospectOK(false))
+			as.IdP.Set("userinfo", tok, sut.Answer{Status: 401, Body: `{"error":"invalid_token"}`})
+		}
 		as.IdP.Set("introspect", id.AT, sut.IntrospectOK(false))
 		if id.RT != "" {
 			as.IdP.Set("refresh", id.RT, sut.OktaRevoked())
@@ -999,19 +1087,35 @@ func (h *hist) reuse(revoked bool, postBody url.Values, good string) bool {
 			as.IdP.Set("userinfo", "at2-"+id.Tag, sut.UserinfoOK(id.Email, true, id.Groups))
 		}
 	}
+	idpAsked := func() int {
+		if k.Reuse == "refresh" {
+			if id.RT == "" {
+				return 0
+			}
+			return len(as.IdP.PeekCalls("refresh", id.RT))
+		}
+		return len(as.IdP.PeekCalls("introspect", id.ProxyAT))
+	}
+	askedBefore := idpAsked()
 	lapsed := ps.CookieName + "=" + ps.Shift(id.ProxyCookie, delta)
 	post := b.proxyReq("GET", "/after-lapse", []string{lapsed}, false)
 	if post.Err != nil {
 		preFail(rep)
 		return false
 	}
+	asked := idpAsked() > askedBefore
+	tokRel := "same-token"
+	if id.ProxyAT != id.AT {
+		tokRel = "other-token-of-the-grant"
+	}
 	hits := len(ps.Hits(post.ID))
 	cs := cookieState(post, ps.CookieName)
 	if revoked {
 		if hits > 0 {
-			h.violate("old proxy session served at its next revalidation after sign-out ["+k.Reuse+"]", fmt.Sprintf("the token was revoked at the IdP (introspect inactive, refresh refused); the saved cookie, %v later, reached the backend (status %d)", delta, post.Status))
+			h.violate(fmt.Sprintf("old proxy session served at its next revalidation after sign-out [%s] idp-asked=%v token=%s", k.Reuse, asked, tokRel), fmt.Sprintf("the grant was revoked at the IdP (every access token inactive, refresh refused); the saved proxy cookie (proxy history before sign-out: %s), %v later, reached the backend (status %d); the IdP was asked about its token during that request: %v", k.Pre, delta, post.Status, asked))
 		} else {
 			rep.Count("old_proxy_cookie_refused_after_lapse", 1)
+			rep.Count(fmt.Sprintf("old_proxy_cookie_refused_%s_idp_asked_%v", tokRel, asked), 1)
 			rep.Count(fmt.Sprintf("old_proxy_cookie_refused_%s_status_%d_cookie_%s", k.Reuse, post.Status, cs), 1)
 		}
 	} else {
